@@ -12,7 +12,7 @@ WT=/tmp/seed/$ID; OUT=/tmp/seed/$ID-out/$K; H=/tmp/seed/$ID-h; DEST=/verif/seede
 export CARGO_TARGET_DIR=/tmp/seed/$ID-target CARGO_NET_OFFLINE=true
 [ -f "$OUT/patch.diff" ] || { echo "no patch in $OUT"; exit 2; }
 mkdir -p "$DEST"; cp "$OUT/patch.diff" "$OUT/meta.json" "$DEST/"; rm -rf "$DEST/demo"; cp -r "$OUT/demo" "$DEST/demo"
-copy_to=$(python3 -c "import json;print(json.load(open('$OUT/meta.json'))['demo_copy_to'])")
+copy_to=$(python3 -c "import json;print(json.load(open('$OUT/meta.json'))['demo_copy_to'].split(' (')[0].strip())")
 crate=$(echo "$copy_to" | sed -E 's#crates/([^/]+)/.*#\1#')
 tname=$(basename "$copy_to" .rs)
 # the demo is run with the command its author recorded (it may need --features verif-hooks)
